@@ -50,6 +50,46 @@ def build(ctx):
 
     obs.append(cas_ob(ctx, "forecast.law", "_forecast_cum_onephase(rf, t, M, tau) == M * rf(t / tau)", law, BOX, [F1], law_real, tol=1e-12))
 
+    def law_arrays():
+        """the same law element-wise for an ARRAY of times, float64 and int64 (whole days): element j is M * rf(t_j / tau)"""
+        nn = tm.var("n", tm.I)
+        jj = tm.var("j", tm.I)
+        v = None
+        for dt, srt in (("f8", tm.R), ("i8", tm.I)):
+            tarr = ArrV((nn,), lambda i_, srt=srt: tm.app("t_in", i_, srt), dt, name="t_in")
+            outs = [o_ for o_ in paths(ctx, F1, [RF, tarr, M, tau]) if o_.kind != "infeasible"]
+            if len(outs) != 1 or outs[0].kind != "return":
+                raise sx.OutOfSubset("_forecast_cum_onephase on an array: no unique returning path")
+            res = outs[0].value
+            res = res.arr if hasattr(res, "arr") else res
+            if not isinstance(res, ArrV) or res.ndim != 1:
+                return be.Verdict(be.REFUTED, "CAS", witness={"time dtype": dt}, detail="the forecast of an array of times is not a 1-D array")
+            tj = tm.app("t_in", [jj], srt)
+            tjv = tm.var("tj", srt)
+            got = tm.subst(res.get(jj), {tj: tjv})
+            want = M * rfapp(tm.toreal(tjv) / tau)
+            v = be.prove_equal_cas(got, want, dict(BOX, tj=(0.0, 4000.0)), seed=ctx.seed, ints=(("tj",) if srt == tm.I else ()))
+            if v.status != be.PROVED:
+                v.detail = f"[time array of dtype {'int64' if dt == 'i8' else 'float64'}] element j is not M * rf(t_j / tau): " + v.detail
+                if v.witness is not None:
+                    v.witness["time_dtype"] = "int64" if dt == "i8" else "float64"
+                return with_models(v, outs[0])
+        return v
+
+    def law_arrays_replay(w):
+        import numpy as np
+        f = real(F1)
+        rf = lambda x: np.tanh(np.sqrt(np.asarray(x, dtype=float)))
+        for tarr in (np.arange(0, 1801, 15), np.linspace(0.0, 1800.0, 37), np.array([0, 1, 7, 365], dtype=np.int32)):
+            for M_, tau_ in ((1234.5, 700.0), (10.0, 36.5)):
+                got = np.asarray(f(rf, tarr, M_, tau_), dtype=float)
+                want = M_ * rf(np.asarray(tarr, dtype=float) / tau_)
+                if got.shape != want.shape or not np.allclose(got, want, rtol=1e-12, atol=0):
+                    return {"reproduced": True, "input": {"time": tarr.tolist(), "time dtype": str(tarr.dtype), "M": M_, "tau": tau_, "rf": "tanh(sqrt(x))"}, "observed": got.tolist()[:6], "required": want.tolist()[:6]}
+        return {"reproduced": False}
+
+    obs.append(Obligation("forecast.law.arrays", "_forecast_cum_onephase(rf, t, M, tau)[j] == M * rf(t[j] / tau) for float64 and int64 arrays of times", law_arrays, [F1], "CAS", law_arrays_replay))
+
     def linear():
         o1 = one_path(ctx, F1, [RF, t, lam * M, tau])
         o2 = one_path(ctx, F1, [RF, t, M, tau])
